@@ -686,46 +686,47 @@ def case_H(case, rep):
 
 def case_P(case, rep):
     sym = case['sym']
-    d2 = [2, 'é']
-    for n in range(1, case['maxlen'] + 1):
-        for hist in itertools.product(('set1', 'set2', 'render', 'mut1'), repeat=n):
-            rep.state()
-            last = None
-            cur1 = {sym: 1}
-            for s in hist:
-                if s == 'set1':
-                    last = dict(cur1)
-                elif s == 'set2':
-                    last = d2
-                elif s == 'mut1':
-                    cur1['n'] = cur1.get('n', 0) + 1
-                    last = dict(cur1)
-            for stack in ('wsgi', 'asgi'):
-                for ct in (falcon.MEDIA_JSON, vendor_type(sym)):
-                    d1 = {sym: 1}
-                    try:
-                        res = emit(stack, 'stock', sym, ct, d1, hist, d2)
-                    except watchdog.Hang:
-                        res = None
-                    rep.trans(len(hist))
-                    rep.trace()
-                    good = res is not None and res.exc is None and not res.problems and res.code == 200
-                    if good:
-                        if last is None:
-                            good = res.body == b''
-                        else:
-                            try:
-                                good = J.same(J.decode(res.body), last)
-                            except J.Reject:
-                                good = False
-                    rep.outcome('P:%s' % ('ok' if good else 'STALE'))
-                    if good and 'render' in hist[:-1]:
-                        rep.nt(digest(('P', stack, ct, hist)))
-                    if not good:
-                        rep.violation({'kind': 'stale-rendered-media', 'stack': stack, 'ct': ct_class(ct), 'body': '', 'exc': ''},
-                                      {'part': 'P', 'sym': sym, 'maxlen': len(hist), 'only': list(hist)},
-                                      'response history %r (set1/mut1 use one dict object, amended in place by mut1; d2=%r) on %s as %s: the wire body must be the serialisation of %r, got %r'
-                                      % (list(hist), d2, stack, ct, last, getattr(res, 'body', None)))
+    # pass 1: ordinary documents; pass 2: FALSY documents ({} and []), which "is not None" / truthiness tests tell apart
+    for d1_init, d2 in (({sym: 1}, [2, 'é']), ({}, [])):
+        for n in range(1, case['maxlen'] + 1):
+            for hist in itertools.product(('set1', 'set2', 'render', 'mut1'), repeat=n):
+                rep.state()
+                last = None
+                cur1 = dict(d1_init)
+                for s in hist:
+                    if s == 'set1':
+                        last = dict(cur1)
+                    elif s == 'set2':
+                        last = d2
+                    elif s == 'mut1':
+                        cur1['n'] = cur1.get('n', 0) + 1
+                        last = dict(cur1)
+                for stack in ('wsgi', 'asgi'):
+                    for ct in (falcon.MEDIA_JSON, vendor_type(sym)):
+                        d1 = dict(d1_init)
+                        try:
+                            res = emit(stack, 'stock', sym, ct, d1, hist, d2)
+                        except watchdog.Hang:
+                            res = None
+                        rep.trans(len(hist))
+                        rep.trace()
+                        good = res is not None and res.exc is None and not res.problems and res.code == 200
+                        if good:
+                            if last is None:
+                                good = res.body == b''
+                            else:
+                                try:
+                                    good = J.same(J.decode(res.body), last)
+                                except J.Reject:
+                                    good = False
+                        rep.outcome('P:%s' % ('ok' if good else 'STALE'))
+                        if good and 'render' in hist[:-1]:
+                            rep.nt(digest(('P', stack, ct, hist)))
+                        if not good:
+                            rep.violation({'kind': 'stale-rendered-media', 'stack': stack, 'ct': ct_class(ct), 'body': '', 'exc': ''},
+                                          {'part': 'P', 'sym': sym, 'maxlen': len(hist), 'only': list(hist)},
+                                          'response history %r (set1/mut1 use one dict object, amended in place by mut1; d2=%r) on %s as %s: the wire body must be the serialisation of %r, got %r'
+                                          % (list(hist), d2, stack, ct, last, getattr(res, 'body', None)))
 
 
 CASE_FUNCS = {'R': case_R, 'L': case_L, 'K': case_K, 'H': case_H, 'P': case_P}
